@@ -29,7 +29,7 @@ func init() {
 	for off := uintptr(0); off < 512; off += 8 {
 		ok := true
 		for _, p := range ps {
-			if load64(p.g + off) != p.id {
+			if load64(p.g+off) != p.id {
 				ok = false
 				break
 			}
